@@ -99,5 +99,33 @@ theorem min_norm_of_range (A : Matrix (Fin m) (Fin n) K) (b : Fin m → K) (x : 
   have := dot_self_nonneg (y - x)
   linarith
 
+omit [LinearOrder K] [IsStrictOrderedRing K] in
+/-- the wide branch: `Aᵀ = Q_full·R_full`, `R_topᵀ·g = b`, `x = Q_full·(g, 0)`: then `A·x = b` and `x ∈ range Aᵀ` -/
+theorem qr_wide_solve (hnm : n ≤ m) (Qf : Matrix (Fin m) (Fin m) K) (Rf At : Matrix (Fin m) (Fin n) K) (hQ : Qfᵀ * Qf = 1)
+    (hAt : At = Qf * Rf) (hR0 : ∀ l c, n ≤ l.val → Rf l c = 0) (hup : ∀ l c, c.val < l.val → Rf l c = 0)
+    (hd : ∀ i : Fin n, Rf ⟨i.val, by have := i.isLt; omega⟩ i ≠ 0)
+    (b : Fin n → K) (x0 : Fin m → K) (hx0 : ∀ l : Fin m, n ≤ l.val → x0 l = 0) (hfs : Rfᵀ *ᵥ x0 = b) :
+    Atᵀ *ᵥ (Qf *ᵥ x0) = b ∧ ∃ w : Fin n → K, Qf *ᵥ x0 = At *ᵥ w := by
+  refine ⟨?_, ?_⟩
+  · rw [hAt, Matrix.transpose_mul, Matrix.mulVec_mulVec, Matrix.mul_assoc, hQ, Matrix.mul_one, hfs]
+  · let Rt : Matrix (Fin n) (Fin n) K := fun l c => Rf ⟨l.val, by have := l.isLt; omega⟩ c
+    have htri : Rt.BlockTriangular id := by
+      intro l c hlc
+      exact hup _ _ hlc
+    have hdet : Rt.det ≠ 0 := by
+      rw [Matrix.det_of_isUpperTriangular htri]
+      exact Finset.prod_ne_zero_iff.mpr (fun i _ => hd i)
+    let g : Fin n → K := fun l => x0 ⟨l.val, by have := l.isLt; omega⟩
+    refine ⟨Rt⁻¹ *ᵥ g, ?_⟩
+    rw [hAt, ← Matrix.mulVec_mulVec]
+    congr 1
+    funext l
+    by_cases hl : l.val < n
+    · have e : (Rf *ᵥ (Rt⁻¹ *ᵥ g)) l = (Rt *ᵥ (Rt⁻¹ *ᵥ g)) ⟨l.val, hl⟩ := rfl
+      rw [e, Matrix.mulVec_mulVec, Matrix.mul_nonsing_inv Rt (Ne.isUnit hdet), Matrix.one_mulVec]
+    · rw [hx0 l (by omega)]
+      show 0 = ∑ c, Rf l c * (Rt⁻¹ *ᵥ g) c
+      exact (Finset.sum_eq_zero (fun c _ => by rw [hR0 l c (by omega), zero_mul])).symm
+
 end QRModel
 end Amgcl
